@@ -349,13 +349,22 @@ fn gen_legal_chain(rng: &mut Rng, s: &StructDef) -> Vec<Op> {
     let n = s.stacks.len();
     let mut ops = vec![];
     let mut has_data = vec![false; n];
+    // model of what the chain has configured so far: per stack its maximum and how many values it holds
+    let mut maxes = vec![usize::MAX; n];
+    let mut lens = vec![0usize; n];
+    // a maximum is usually tiny and sometimes "unbounded" (usize::MAX, which is also the default of a plain Stack)
+    let pick_max = |rng: &mut Rng, below: usize| if rng.chance(1, 7) { usize::MAX } else { rng.below(below) };
     // individual sizes may come before or after the global one
     if rng.chance(1, 3) {
         ops.push(Op::MaxOne(rng.below(n), rng.below(7)));
     }
-    ops.push(Op::MaxAll(rng.below(8)));
+    let m = pick_max(rng, 8);
+    ops.push(Op::MaxAll(m));
+    maxes.iter_mut().for_each(|x| *x = m);
     if rng.chance(1, 4) {
-        ops.push(Op::MaxAll(rng.below(8)));
+        let m = pick_max(rng, 8);
+        ops.push(Op::MaxAll(m));
+        maxes.iter_mut().for_each(|x| *x = m);
     }
     let mut program = false;
     let mut steps = false;
@@ -364,15 +373,31 @@ fn gen_legal_chain(rng: &mut Rng, s: &StructDef) -> Vec<Op> {
             0..=2 => {
                 let i = rng.below(n);
                 if !has_data[i] {
-                    ops.push(Op::MaxOne(i, rng.below(7)));
+                    let m = pick_max(rng, 7);
+                    ops.push(Op::MaxOne(i, m));
+                    maxes[i] = m;
                 }
             }
             3..=6 => {
                 let i = rng.below(n);
                 // occasionally an astronomically long lazy list (also as a second load onto a non-empty stack)
-                let cnt = if rng.chance(1, 12) { [usize::MAX, usize::MAX - 1, LAZY, usize::MAX - 3][rng.below(4)] } else { rng.below(5) };
+                let cnt = if !rng.chance(1, 12) {
+                    rng.below(5)
+                } else if maxes[i] < usize::MAX {
+                    [usize::MAX, usize::MAX - 1, LAZY, usize::MAX - 3][rng.below(4)]
+                } else if lens[i] == 0 {
+                    // an unbounded empty stack would really try to take them all: only ordinary counts here
+                    rng.below(5)
+                } else {
+                    // unbounded and non-empty: counts whose sum with what is already there does not fit in a usize
+                    // (the smallest such count, and the largest) - an overflow error, not a capacity panic
+                    [usize::MAX - lens[i] + 1, usize::MAX][rng.below(2)]
+                };
                 ops.push(Op::Values(i, cnt));
                 has_data[i] = true;
+                if cnt < LAZY && lens[i] + cnt <= maxes[i] {
+                    lens[i] += cnt;
+                }
             }
             7 if !program => {
                 ops.push(if rng.chance(2, 3) { Op::Program(rng.below(5)) } else { Op::NoProgram });
@@ -423,8 +448,9 @@ fn predict(s: &StructDef, ops: &[Op]) -> Expect {
             }
             Op::MaxOne(i, m) => e.stacks[*i].0 = *m,
             Op::Values(i, cnt) if *cnt >= LAZY => {
-                // maxima in legal chains are below 8, so this can only be an overflow (also when the
-                // count added to what is already there does not fit in a usize)
+                // maxima in legal chains are below 8 or usize::MAX; lazy lists are only generated where they must
+                // overflow: above a small maximum, or onto a non-empty unbounded stack with a count that added to
+                // what is already there does not fit in a usize
                 let _ = i;
                 e.overflow_at = Some(k);
                 return e;
